@@ -74,6 +74,11 @@ CHECKS["C07"] = dict(
     text="Exhaustive over the 3125 layout assignments (set / language / two captions / styled span over {none, A, B, default-equal, webvtt-only}) and over 11 string positions x 8 metacharacter classes, for the three DFXP writers; sets returned by all six readers on the corpus and random API-built sets with printable-Unicode strings under random options and force values beyond. Well-formedness is asked of expat and lxml (no recovery); ids, references, divs and paragraphs are judged by TLC.",
     design="4 C07")
 
+CHECKS["C12"] = dict(
+    technique="TLA+ spec Positioning.tla (on Geometry.tla): TLC checks the composition of the writer's region lookup and the reader's region resolution on all layout-name assignments (MC_Positioning, on DfxpDoc.tla) and judges the effective layout per visible character after a real DFXPWriter -> DFXPReader round trip and the cue settings tokenised from WebVTTWriter output (Trace_Positioning, exact rationals)",
+    text="Exhaustive over 1250 layout-name assignments (set / language / caption / node, plain or styled) and over a grid exhaustive in None-ness of the four layout parts, the 23 alignment pairs and padding values at four attachment levels; WebVTT align / position / line / size arithmetic on the same grid, multi-layout captions (1-3 cues) and verbatim raw cue settings; random two-decimal values beyond. One open known finding (plain TEXT node layouts) is re-validated with exactly that deviation enabled.",
+    design="4 C12")
+
 NOT_YET = {}
 
 
